@@ -824,14 +824,21 @@ def check_save_load(ctx: Ctx, tier: str):
                               equivariant=True, key=key)
         return models.GroupAverage(inner, ops[:4], always_average=False, inference=saved)
 
+    def ga_build_off(key, saved=False):
+        # the SAVED wrapper is in training mode (no averaging), the template in inference mode
+        inner = models.ResNet(D, in_sig, out_sig, depth=2, num_blocks=1, num_conv=1, conv_filters=filt,
+                              equivariant=True, key=key)
+        return models.GroupAverage(inner, ops[:4], always_average=False, inference=not saved)
+
     builders.append(("GroupNorm/eps-differs-from-template", gn_build, lambda mdl, x: mdl(x_vec)))
     builders.append(("GroupAverage/inference-flag-differs-from-template", ga_build, call))
+    builders.append(("GroupAverage/saved-in-training-mode-template-in-inference-mode", ga_build_off, call))
 
     for name, build, run_model in builders:
         t0 = time.time()
         k1, k2 = random.split(random.PRNGKey(ctx.seed * 7 + 3))
         try:
-            if build in (gn_build, ga_build):
+            if build in (gn_build, ga_build, ga_build_off):
                 m1, m2 = build(k1, saved=True), build(k2, saved=False)
             else:
                 m1, m2 = build(k1), build(k2)
